@@ -112,6 +112,8 @@ FsAny(fm)         == [op |-> "any", fm |-> fm]
 FsSel(fm, m)      == [op |-> "selection", fm |-> fm, m |-> m]
 FsPruned(fm, m)   == [op |-> "pruned", fm |-> fm, m |-> m]
 FsNot(a)          == [op |-> "not", a |-> a]
+FsAnd(a, b)       == [op |-> "and", a |-> a, b |-> b]      \* every operand looks at the same set of files
+FsOr(a, b)        == [op |-> "or", a |-> a, b |-> b]
 
 \* ---------------------------------------------------------------------------------------------
 \* glob patterns and file name parts (texts are sequences of characters 1 a, 2 b, 3 c, 4 ".", 5 z)
@@ -226,6 +228,8 @@ Ev(w, m, t, x) ==
          CASE m.op = "selection" -> Ev("fs", m.m, t, [x EXCEPT !.sel = Append(@, m.fm)])
            [] m.op = "pruned"    -> Ev("fs", m.m, t, [x EXCEPT !.prune = Append(@, m.fm)])
            [] m.op = "not"       -> Not4(Ev("fs", m.a, t, x))
+           [] m.op = "and"       -> LET a == Ev("fs", m.a, t, x) IN IF a = "T" THEN Ev("fs", m.b, t, x) ELSE a
+           [] m.op = "or"        -> LET a == Ev("fs", m.a, t, x) IN IF a = "F" THEN Ev("fs", m.b, t, x) ELSE a
            [] m.op = "const"     -> B4(m.b)
            [] OTHER ->
               LET F == Ev("files", <<>>, t, x) IN
@@ -738,7 +742,12 @@ CoreProbes ==
         [id |-> "num-ge",     m |-> FsNum(">=", n + 1)],
         [id |-> "empty",      m |-> FsEmpty],
         [id |-> "typed",      m |-> FsMatches(TRUE, Typed(rels))],
-        [id |-> "typed-sub",  m |-> FsMatches(FALSE, Typed(sub))] >>
+        [id |-> "typed-sub",  m |-> FsMatches(FALSE, Typed(sub))],
+        \* combinations: every operand is applied to the same set of files
+        [id |-> "num-and-num",   m |-> FsAnd(FsNum("==", n), FsNum("==", n))],
+        [id |-> "num-and-full",  m |-> FsAnd(FsNum(">=", n), FsMatches(TRUE, Plain(rels)))],
+        [id |-> "plus-or-num",   m |-> FsOr(FsNum("==", n + 1), FsNum("==", n))],
+        [id |-> "num-and-plus",  m |-> FsAnd(FsNum("==", n), FsNum("==", n + 1))] >>
      \o (IF F = {} THEN <<>> ELSE
          << [id |-> "full-minus",  m |-> FsMatches(TRUE, Plain(minus))],
             [id |-> "typed-wrong", m |-> FsMatches(TRUE, WrongAt(Typed(rels), Len(rels)))],
@@ -833,8 +842,9 @@ WrapsDefined ==
 \* matches -full: exactly the named files; matches: at least the named files
 \* (also: num-files counts them, is-empty means there is none)
 FixedVerdict(id) ==
-  CASE id \in {"full", "sub", "typed", "typed-sub", "num", "full/B", "sub/B", "num/B"} -> "T"
-    [] id \in {"full-plus", "full-minus", "sub-absent", "typed-wrong", "sub-wrong", "num-plus", "num-ge",
+  CASE id \in {"full", "sub", "typed", "typed-sub", "num", "full/B", "sub/B", "num/B", "num-and-num", "num-and-full",
+               "plus-or-num"} -> "T"
+    [] id \in {"full-plus", "full-minus", "sub-absent", "typed-wrong", "sub-wrong", "num-plus", "num-ge", "num-and-plus",
                "full-plus/B", "sub-absent/B"} -> "F"
     [] id = "empty" -> B4(F0 = {})
     [] OTHER -> "-"
